@@ -50,6 +50,9 @@ class TupleMeanState(base.CallableMetric):
     return TupleMeanState(tuple(MeanState().new(x) for x in inputs))
 
   def merge(self, other: TupleMeanState):
+    if not other.states:
+      # `other` never saw a batch: nothing to merge.
+      return
     if not self.states:
       self.states = tuple(MeanState() for _ in other.states)
     for state, state_other in zip(self.states, other.states, strict=True):
